@@ -264,6 +264,11 @@ pub enum DecompressBlockError {
     SequencesHeaderParseError(SequencesHeaderParseError),
     DecodeSequenceError(DecodeSequenceError),
     ExecuteSequencesError(ExecuteSequencesError),
+    /// The literals section claims to regenerate more than a block may contain
+    LiteralsTooLarge {
+        regenerated_size: usize,
+        max: usize,
+    },
 }
 
 #[cfg(feature = "std")]
@@ -300,6 +305,14 @@ impl core::fmt::Display for DecompressBlockError {
             DecompressBlockError::SequencesHeaderParseError(e) => write!(f, "{e:?}"),
             DecompressBlockError::DecodeSequenceError(e) => write!(f, "{e:?}"),
             DecompressBlockError::ExecuteSequencesError(e) => write!(f, "{e:?}"),
+            DecompressBlockError::LiteralsTooLarge {
+                regenerated_size,
+                max,
+            } => {
+                write!(f,
+                    "Literals section regenerates {regenerated_size} bytes, a block must not contain more than {max} bytes",
+                )
+            }
         }
     }
 }
@@ -684,6 +697,8 @@ pub enum ExecuteSequencesError {
     DecodebufferError(DecodeBufferError),
     NotEnoughBytesForSequence { wanted: usize, have: usize },
     ZeroOffset,
+    /// Executing the sequences would regenerate more than a block may contain
+    BlockTooLarge { size: usize, max: usize },
 }
 
 impl core::fmt::Display for ExecuteSequencesError {
@@ -700,6 +715,12 @@ impl core::fmt::Display for ExecuteSequencesError {
             }
             ExecuteSequencesError::ZeroOffset => {
                 write!(f, "Illegal offset: 0 found")
+            }
+            ExecuteSequencesError::BlockTooLarge { size, max } => {
+                write!(
+                    f,
+                    "Block would regenerate at least {size} bytes, the maximum is {max} bytes"
+                )
             }
         }
     }
